@@ -288,13 +288,30 @@ func contextOf(info *types.Info, pm map[ast.Node]ast.Node, n ast.Node, stop ast.
 			labels = append(labels, strings.Join(ls, "|"))
 		case *ast.IfStmt:
 			if child == ast.Node(x.Body) {
-				guards = append(guards, roleStr(info, x.Cond))
+				guards = append(guards, polarStr(info, x.Cond, true))
 			} else if child == x.Else {
-				guards = append(guards, "!("+roleStr(info, x.Cond)+")")
+				guards = append(guards, polarStr(info, x.Cond, false))
 			}
 		}
 	}
 	return labels, guards
+}
+
+// polarStr renders a condition known to be true (false) with double negations
+// removed: `!(!(x))` under "true" is `x`, `!(x)` under "false" is `x`.
+func polarStr(info *types.Info, cond ast.Expr, truth bool) string {
+	for {
+		cond = ast.Unparen(cond)
+		u, ok := cond.(*ast.UnaryExpr)
+		if !ok || u.Op != token.NOT {
+			break
+		}
+		cond, truth = u.X, !truth
+	}
+	if truth {
+		return roleStr(info, cond)
+	}
+	return "!(" + roleStr(info, cond) + ")"
 }
 
 // c04Narrowing enumerates every operation that can make CanHaveLabel false and
@@ -700,6 +717,9 @@ func runC12(c *Ctx) {
 					got = exprStr(cond)
 					rx, _, _ := accessPath(info, cond.X)
 					ry, _, _ := accessPath(info, cond.Y)
+					if (cond.Op == token.EQL || cond.Op == token.NEQ) && rx == rsP && ry == lsP {
+						rx, ry = ry, rx // symmetric operators: either operand order
+					}
 					ok = cond.Op == want && rx == lsP && ry == rsP && strings.HasSuffix(exprStr(cond.X), ".ReturnedNumber") && strings.HasSuffix(exprStr(cond.Y), ".ReturnedNumber")
 				}
 				c.Check(ok, "C12-R4", "calculateStaticReturn:"+k.Name()+" is dead iff ls "+want.String()+" rs", cs.Clause.Pos(), got, "for PromQL operator "+k.Name()+" the code is declared dead when `"+got+"`, expected the exact negation `ls.ReturnedNumber "+want.String()+" rs.ReturnedNumber`: a comparison that can be true is reported as dead code (or a boundary value is)")
